@@ -54,7 +54,7 @@ Lemma strategy_interest_ok strategy fs tidv now inface nonce life n hop allowed 
 Proof.
   unfold strategy_interest.
   destruct allowed as [|a0 ar]; [intros []|].
-  destruct (suppressed now nonce e); [intros []|].
+  destruct (suppressed strategy now nonce e); [intros []|].
   destruct (strategy =? 1).
   - destruct (send_all fs tidv now inface nonce life n hop (a0 :: ar) e) as [e' os] eqn:S; cbn.
     intros Hin; apply (send_all_ok fs tidv now inface nonce life n hop (a0 :: ar) e); rewrite S; exact Hin.
